@@ -4561,6 +4561,9 @@ class Pack:
                     pack_index=self.index,
                     pack_checksum=self.get_stored_checksum(),
                 )
+            except FileNotFoundError:
+                # No bitmap for this pack
+                return None
             except ChecksumMismatch:
                 # The bitmap records the checksum of the pack it was built for.
                 # A mismatch means it is stale or was swapped in from another
